@@ -559,3 +559,29 @@ def run_C12(ctx):
 
 
 RUNNERS["C12"] = run_C12
+
+
+# ------------------------------------------------------------------ C04 (ufuncs / broadcasting) -- Python layer (L2)
+L2_TRUSTED = "harness/l2/_ext.py + harness/l2/akworker_l2.cpp (stand-in for the pybind11 extension src/python/*.cpp, which cannot be compiled here)"
+
+
+def run_C04(ctx):
+    ctx.build_l2()
+    q = ctx.quick()
+    consts = session_consts(OpSet='{"ufunc","aux"}', LeafSet=leafset(2), MaxDepth="1" if q else "2", MaxLen="2",
+                            Classes='{"ListOffset","List","Regular","IndexedOption","ByteMasked","Indexed","Unmasked"}')
+    ctx.l2_phase("ufunc-broadcast-pairs", "Session", consts, ("l2replay", "h_c04"), invariants=["Closed"],
+                 require_actions=["UfuncOp", "StoreAux", "WrapRegular", "WrapListOffset", "WrapIndexedOption"],
+                 sample_cases=(40000 if q else 600000), timeout=1200)
+    consts = session_consts(OpSet='{"ufunc"}', LeafSet=leafset(2), MaxDepth="2" if q else "3", MaxLen="2",
+                            Classes='{"ListOffset","List","Regular","IndexedOption","ByteMasked","BitMasked","Indexed","Unmasked"}')
+    ctx.l2_phase("ufunc-scalars-deep", "Session", consts, ("l2replay", "h_c04"), invariants=["Closed"],
+                 require_actions=["UfuncOp", "WrapRegular", "WrapListOffset", "WrapList", "WrapBitMasked"],
+                 sample_cases=(30000 if q else 400000), timeout=1200)
+    return ctx.finish(rule="case = (one or two layouts, scalar, ufunc/operator/broadcast_arrays form); executed through numpy ufuncs / Python "
+                           "operators / ak.broadcast_arrays of /repo's Python layer; rectilinear pairs are additionally compared with NumPy itself",
+                      assumptions=[L2_TRUSTED, "unions and records under ufuncs are outside this model (Unspec / must raise)",
+                                   "leaf values are small integers; dtype promotion is not judged"])
+
+
+RUNNERS["C04"] = run_C04
